@@ -1,314 +1,15 @@
 /-
-  Helper lemmas for C18 (gap G2 of the audit): `honoured_after_1s` under a narrower assumption on the
-  hash.  Collisions among older TZ values are tolerated: a cache may then hold the zone of one value
-  and the source of another with the same hash.  What is needed is only that no value of the history
-  collides with the CURRENT value (the one set by the last change); with TZ unset (or not text) at
-  the end nothing is needed at all.  Two phases: up to the last change a weak invariant (no
-  assumption), after it the strong one.  Core Lean only.
+  Helper lemmas for C18: the public entry points perform exactly one lookup.
+
+  (Until the repair of finding F33 this file also carried a two-phase invariant for
+  `honoured_after_1s` under a narrowed assumption on `DefaultHasher` — `SameKey`, `CacheW`, `WInv`.
+  The cache now remembers the text of TZ, no theorem needs an assumption on a hash any more, and
+  that machinery is gone with the `hash` field of `World`; the pre-repair refresh rule and what it
+  did on two colliding values is kept in `Chrono.Proofs.LocalCacheF33L`.)  Core Lean only.
 -/
 import Chrono.Proofs.LocalCacheHistL
 namespace Chrono.Proofs.LocalCache
 open Chrono.M.LocalCache Chrono.Spec.LocalCache Chrono.Extracted.LocalCache
-
-/-- two values of TZ give sources that never look out of date against each other -/
-def SameKey (W : World) : Option Bytes → Option Bytes → Prop
-  | none, none => True
-  | some x, some y => W.hash x = W.hash y
-  | _, _ => False
-
-theorem sameKey_trans (W : World) (a b c : Option Bytes) (h1 : SameKey W a b) (h2 : SameKey W b c) :
-    SameKey W a c := by
-  cases a <;> cases b <;> cases c <;> simp_all [SameKey]
-
-theorem sameKey_refl (W : World) (a : Option Bytes) : SameKey W a a := by
-  cases a <;> simp [SameKey]
-
-theorem sameKey_of_fresh (W : World) (l n : Nat) (a b : Option Bytes)
-    (h : out_of_date (Source.new W l a) (Source.new W n b) = false) : SameKey W a b := by
-  cases a with
-  | none =>
-    cases b with
-    | none => trivial
-    | some y =>
-      exfalso
-      unfold Source.new at h
-      cases hm : W.ltMtime <;> simp [hm, out_of_date] at h
-  | some x =>
-    cases b with
-    | none =>
-      exfalso
-      unfold Source.new at h
-      cases hm : W.ltMtime <;> simp [hm, out_of_date] at h
-    | some y => simpa [Source.new, out_of_date, SameKey] using h
-
-/-- weak knowledge about a cache: zone of some value `ez`, source of some value `es` with the same
-key, both values of the history; if `F` and `g` are given, additionally: both are `F`, or the cache
-was last checked before `g` -/
-def CacheW (W : World) (S : List Bytes) (fresh : Option Bytes → Option Bytes → Nat → Prop) (c : Cache) : Prop :=
-  ∃ ez es : Option Bytes, (∀ a, ez = some a → a ∈ S) ∧ (∀ a, es = some a → a ∈ S) ∧
-    c.source = Source.new W c.last_checked es ∧ c.zone = current_zone W ez ∧ SameKey W ez es ∧
-    fresh ez es c.last_checked
-
-/-- phase 1: nothing about freshness -/
-def anyFresh : Option Bytes → Option Bytes → Nat → Prop := fun _ _ _ => True
-/-- phase 2: both are the final value `F`, or last checked before `g` -/
-def finFresh (F : Option Bytes) (g : Nat) : Option Bytes → Option Bytes → Nat → Prop :=
-  fun ez es l => (ez = F ∧ es = F) ∨ l < g
-
-def WInv (W : World) (S : List Bytes) (fresh : Option Bytes → Option Bytes → Nat → Prop) (s : State) : Prop :=
-  (∀ a, env_var s.env = some a → a ∈ S) ∧
-  ∀ t c, s.caches t = some c → c.last_checked ≤ s.clock ∧ CacheW W S fresh c
-
-/-- one lookup keeps the weak invariant, whatever the hash does -/
-theorem offset_w (W : World) (S : List Bytes) (env : EnvVal) (now : Nat) (c : Cache)
-    (hcur : ∀ a, env_var env = some a → a ∈ S) (hc : CacheW W S anyFresh c) :
-    CacheW W S anyFresh (Cache.offset W c now env).1 ∧
-    ((Cache.offset W c now env).1.last_checked = c.last_checked ∨
-      (Cache.offset W c now env).1.last_checked = now) := by
-  obtain ⟨ez, es, h1, h2, hsrc, hzone, hk, _⟩ := hc
-  unfold Cache.offset
-  by_cases hw : within_window c.last_checked now = true
-  · rw [if_pos hw]; exact ⟨⟨ez, es, h1, h2, hsrc, hzone, hk, trivial⟩, Or.inl rfl⟩
-  · rw [if_neg hw]
-    by_cases ho : out_of_date c.source (Source.new W now (env_var env)) = true
-    · dsimp only; rw [if_pos ho]
-      exact ⟨⟨env_var env, env_var env, hcur, hcur, rfl, rfl, sameKey_refl W _, trivial⟩, Or.inr rfl⟩
-    · have ho' : out_of_date c.source (Source.new W now (env_var env)) = false := by
-        cases hh : out_of_date c.source (Source.new W now (env_var env)) <;> simp_all
-      rw [hsrc] at ho'
-      have hk2 := sameKey_of_fresh W _ _ _ _ ho'
-      dsimp only; rw [if_neg ho]
-      exact ⟨⟨ez, env_var env, h1, hcur, rfl, hzone, sameKey_trans W _ _ _ hk hk2, trivial⟩, Or.inr rfl⟩
-
-/-- one lookup in phase 2 (TZ has its final value `F`, no value of the history shares its key):
-the strong invariant is kept, and one second after `g` the zone is the one of `F` -/
-theorem offset_f (W : World) (S : List Bytes) (env : EnvVal) (g now : Nat) (c : Cache)
-    (hcur : ∀ a, env_var env = some a → a ∈ S)
-    (hsep : ∀ e : Option Bytes, (∀ a, e = some a → a ∈ S) → SameKey W e (env_var env) → e = env_var env)
-    (hc : CacheW W S (finFresh (env_var env) g) c) :
-    CacheW W S (finFresh (env_var env) g) (Cache.offset W c now env).1 ∧
-    ((Cache.offset W c now env).1.last_checked = c.last_checked ∨
-      (Cache.offset W c now env).1.last_checked = now) ∧
-    (g + ONE_SECOND ≤ now + 1 → (Cache.offset W c now env).1.zone = current_zone W (env_var env)) := by
-  obtain ⟨ez, es, h1, h2, hsrc, hzone, hk, hf⟩ := hc
-  unfold Cache.offset
-  by_cases hw : within_window c.last_checked now = true
-  · rw [if_pos hw]
-    refine ⟨⟨ez, es, h1, h2, hsrc, hzone, hk, hf⟩, Or.inl rfl, ?_⟩
-    intro hg
-    rcases hf with h | h
-    · rw [hzone, h.1]
-    · exfalso; rw [within_window_iff] at hw; omega
-  · rw [if_neg hw]
-    by_cases ho : out_of_date c.source (Source.new W now (env_var env)) = true
-    · dsimp only; rw [if_pos ho]
-      exact ⟨⟨env_var env, env_var env, hcur, hcur, rfl, rfl, sameKey_refl W _, Or.inl ⟨rfl, rfl⟩⟩,
-        Or.inr rfl, fun _ => rfl⟩
-    · have ho' : out_of_date c.source (Source.new W now (env_var env)) = false := by
-        cases hh : out_of_date c.source (Source.new W now (env_var env)) <;> simp_all
-      rw [hsrc] at ho'
-      have hk2 := sameKey_of_fresh W _ _ _ _ ho'
-      have hez : ez = env_var env := hsep ez h1 (sameKey_trans W _ _ _ hk hk2)
-      dsimp only; rw [if_neg ho]
-      refine ⟨⟨ez, env_var env, h1, hcur, rfl, hzone, sameKey_trans W _ _ _ hk hk2, Or.inl ⟨hez, rfl⟩⟩,
-        Or.inr rfl, fun _ => ?_⟩
-      show c.zone = _
-      rw [hzone, hez]
-
-theorem default_w (W : World) (S : List Bytes) (env : EnvVal) (now : Nat)
-    (fresh : Option Bytes → Option Bytes → Nat → Prop) (hfr : fresh (env_var env) (env_var env) now)
-    (hcur : ∀ a, env_var env = some a → a ∈ S) : CacheW W S fresh (Cache.default W now env) :=
-  ⟨env_var env, env_var env, hcur, hcur, rfl, rfl, sameKey_refl W _, hfr⟩
-
-/-- phase 1, one step -/
-theorem step_w (W : World) (S : List Bytes) (s : State) (x : Step)
-    (hI : WInv W S anyFresh s) (hx : StepIn S x) : WInv W S anyFresh (step W s x).1 := by
-  obtain ⟨henv, hcs⟩ := hI
-  cases x with
-  | setTZ v =>
-    refine ⟨?_, hcs⟩
-    intro a ha
-    have : v = a := by simpa [step, env_var] using ha
-    subst this; exact hx
-  | setNotUnicode => exact ⟨by intro a ha; simp [step, env_var] at ha, hcs⟩
-  | unsetTZ => exact ⟨by intro a ha; simp [step, env_var] at ha, hcs⟩
-  | advance n =>
-    exact ⟨henv, fun t c hc => ⟨Nat.le_trans (hcs t c hc).1 (Nat.le_add_right _ _), (hcs t c hc).2⟩⟩
-  | spawn t =>
-    refine ⟨henv, ?_⟩
-    intro t' c hc
-    have hc' : update s.caches t none t' = some c := hc
-    unfold update at hc'
-    by_cases ht : t' = t
-    · rw [if_pos ht] at hc'; cases hc'
-    · rw [if_neg ht] at hc'; exact hcs t' c hc'
-  | convert t l =>
-    have key : ∀ c0 : Cache, c0.last_checked ≤ s.clock → CacheW W S anyFresh c0 →
-        WInv W S anyFresh { s with caches := update s.caches t (some (Cache.offset W c0 s.clock s.env).1) } := by
-      intro c0 hl hc0
-      obtain ⟨h1, h2⟩ := offset_w W S s.env s.clock c0 henv hc0
-      refine ⟨henv, ?_⟩
-      intro t' c' hc'
-      dsimp only at hc'
-      unfold update at hc'
-      by_cases ht : t' = t
-      · rw [if_pos ht] at hc'
-        injection hc' with hc'
-        subst hc'
-        exact ⟨by show (Cache.offset W c0 s.clock s.env).1.last_checked ≤ s.clock; rcases h2 with h | h <;> omega, h1⟩
-      · rw [if_neg ht] at hc'; exact hcs t' c' hc'
-    show WInv W S anyFresh (inner_offset W s t).1
-    unfold inner_offset
-    cases hc : s.caches t with
-    | some c => exact key c (hcs t c hc).1 (hcs t c hc).2
-    | none => exact key (Cache.default W s.clock s.env) (Nat.le_refl _) (default_w W S s.env s.clock _ trivial henv)
-
-theorem exec_w (W : World) (S : List Bytes) (h : List Step) :
-    ∀ s, WInv W S anyFresh s → (∀ x ∈ h, StepIn S x) → WInv W S anyFresh (exec W s h) := by
-  induction h with
-  | nil => intro s hI _; exact hI
-  | cons x xs ih =>
-    intro s hI hx
-    exact ih _ (step_w W S s x hI (hx x (List.mem_cons_self ..))) (fun y hy => hx y (List.mem_cons_of_mem _ hy))
-
-/-- phase 2, one step that does not change TZ: the environment stays `F`, the strong invariant is kept -/
-theorem step_f (W : World) (S : List Bytes) (F : Option Bytes) (g : Nat) (s : State) (x : Step)
-    (hF : env_var s.env = F)
-    (hsep : ∀ e : Option Bytes, (∀ a, e = some a → a ∈ S) → SameKey W e F → e = F)
-    (hI : WInv W S (finFresh F g) s) (hx : isChange x = false) :
-    WInv W S (finFresh F g) (step W s x).1 ∧ (step W s x).1.env = s.env := by
-  obtain ⟨henv, hcs⟩ := hI
-  cases x with
-  | setTZ v => simp [isChange] at hx
-  | setNotUnicode => simp [isChange] at hx
-  | unsetTZ => simp [isChange] at hx
-  | advance n =>
-    exact ⟨⟨henv, fun t c hc => ⟨Nat.le_trans (hcs t c hc).1 (Nat.le_add_right _ _), (hcs t c hc).2⟩⟩, rfl⟩
-  | spawn t =>
-    refine ⟨⟨henv, ?_⟩, rfl⟩
-    intro t' c hc
-    have hc' : update s.caches t none t' = some c := hc
-    unfold update at hc'
-    by_cases ht : t' = t
-    · rw [if_pos ht] at hc'; cases hc'
-    · rw [if_neg ht] at hc'; exact hcs t' c hc'
-  | convert t l =>
-    have key : ∀ c0 : Cache, c0.last_checked ≤ s.clock → CacheW W S (finFresh F g) c0 →
-        WInv W S (finFresh F g) { s with caches := update s.caches t (some (Cache.offset W c0 s.clock s.env).1) } := by
-      intro c0 hl hc0
-      subst hF
-      obtain ⟨h1, h2, _⟩ := offset_f W S s.env g s.clock c0 henv hsep hc0
-      refine ⟨henv, ?_⟩
-      intro t' c' hc'
-      dsimp only at hc'
-      unfold update at hc'
-      by_cases ht : t' = t
-      · rw [if_pos ht] at hc'
-        injection hc' with hc'
-        subst hc'
-        exact ⟨by show (Cache.offset W c0 s.clock s.env).1.last_checked ≤ s.clock; rcases h2 with h | h <;> omega, h1⟩
-      · rw [if_neg ht] at hc'; exact hcs t' c' hc'
-    constructor
-    · show WInv W S (finFresh F g) (inner_offset W s t).1
-      unfold inner_offset
-      cases hc : s.caches t with
-      | some c => exact key c (hcs t c hc).1 (hcs t c hc).2
-      | none =>
-        exact key (Cache.default W s.clock s.env) (Nat.le_refl _)
-          (default_w W S s.env s.clock _ (Or.inl ⟨hF, hF⟩) henv)
-    · show (inner_offset W s t).1.env = s.env
-      unfold inner_offset; cases s.caches t <;> rfl
-
-theorem exec_f (W : World) (S : List Bytes) (F : Option Bytes) (g : Nat)
-    (hsep : ∀ e : Option Bytes, (∀ a, e = some a → a ∈ S) → SameKey W e F → e = F) (h : List Step) :
-    ∀ s, env_var s.env = F → WInv W S (finFresh F g) s → (∀ x ∈ h, isChange x = false) →
-      WInv W S (finFresh F g) (exec W s h) ∧ (exec W s h).env = s.env := by
-  induction h with
-  | nil => intro s _ hI _; exact ⟨hI, rfl⟩
-  | cons x xs ih =>
-    intro s hF hI hx
-    obtain ⟨h1, h2⟩ := step_f W S F g s x hF hsep hI (hx x (List.mem_cons_self ..))
-    obtain ⟨h3, h4⟩ := ih _ (by rw [h2]; exact hF) h1 (fun y hy => hx y (List.mem_cons_of_mem _ hy))
-    exact ⟨h3, by show (exec W (step W s x).1 xs).env = _; rw [h4, h2]⟩
-
-/-- from phase 1 to phase 2 at the change: every cache is older than `g` = 1 + the clock -/
-theorem w_to_f (W : World) (S : List Bytes) (F : Option Bytes) (s : State)
-    (hI : WInv W S anyFresh s) : WInv W S (finFresh F (s.clock + 1)) s := by
-  obtain ⟨henv, hcs⟩ := hI
-  refine ⟨henv, ?_⟩
-  intro t c hc
-  obtain ⟨hl, ez, es, h1, h2, h3, h4, h5, _⟩ := hcs t c hc
-  exact ⟨hl, ez, es, h1, h2, h3, h4, h5, Or.inr (by omega)⟩
-
-theorem init_w (W : World) (e : EnvVal) (k : Nat) (h : List Step) : WInv W (valuesOf e h) anyFresh (init e k) := by
-  refine ⟨?_, fun t c hc => by simp [init] at hc⟩
-  intro a ha
-  unfold valuesOf
-  apply List.mem_append_left
-  cases e <;> simp [init, env_var, envValue] at ha ⊢
-  exact ha.symm
-
-/-- `honoured_after_1s` with the hash assumption narrowed to: no TZ value of the history has the same
-hash as the current value without being it -/
-theorem honoured_after_1s_narrow' (W : World) (e0 : EnvVal) (k0 : Nat) (p1 p2 : List Step) (chg : Step)
-    (hno : ∀ x ∈ p2, isChange x = false) (hwait : ONE_SECOND ≤ elapsed p2)
-    (hsep : ∀ cur, env_var (envAfter e0 (p1 ++ [chg])) = some cur →
-      ∀ v ∈ valuesOf e0 (p1 ++ [chg]), W.hash v = W.hash cur → v = cur)
-    (t : Nat) (l : Bool) :
-    zoneOfStep (step W (exec W (init e0 k0) (p1 ++ chg :: p2)) (.convert t l)) =
-      some (zoneFor W (env_var (envAfter e0 (p1 ++ chg :: p2)))) := by
-  have hsplit : p1 ++ chg :: p2 = (p1 ++ [chg]) ++ p2 := by simp
-  let S := valuesOf e0 (p1 ++ [chg])
-  let F := env_var (envAfter e0 (p1 ++ [chg]))
-  -- phase 1
-  have h1 := exec_w W S (p1 ++ [chg]) (init e0 k0) (init_w W e0 k0 _) (stepIn_valuesOf e0 _)
-  obtain ⟨henv1, hclk1⟩ := exec_clock_env W (p1 ++ [chg]) (init e0 k0)
-  have henv1' : (exec W (init e0 k0) (p1 ++ [chg])).env = envAfter e0 (p1 ++ [chg]) := henv1
-  -- the key separation in the form the lemmas use
-  have hsep' : ∀ e : Option Bytes, (∀ a, e = some a → a ∈ S) → SameKey W e F → e = F := by
-    intro e he hk
-    cases e with
-    | none => cases hF : F <;> simp_all [SameKey]
-    | some v =>
-      cases hF : F with
-      | none => rw [hF] at hk; simp [SameKey] at hk
-      | some cur =>
-        rw [hF] at hk
-        have := hsep cur hF v (he v rfl) (by simpa [SameKey] using hk)
-        rw [this]
-  -- phase 2
-  have h2 := w_to_f W S F _ h1
-  obtain ⟨h3, h4⟩ := exec_f W S F _ hsep' p2 _ (by rw [henv1']) h2 hno
-  rw [hsplit, exec_append]
-  have henv2 : (exec W (exec W (init e0 k0) (p1 ++ [chg])) p2).env = envAfter e0 (p1 ++ [chg]) := by
-    rw [h4, henv1']
-  have hE : envAfter e0 ((p1 ++ [chg]) ++ p2) = envAfter e0 (p1 ++ [chg]) := by
-    rw [envAfter_append]; exact envAfter_nochange _ p2 hno
-  rw [hE]
-  -- the conversion
-  obtain ⟨henvS, hcs⟩ := h3
-  have hclk2 := (exec_clock_env W p2 (exec W (init e0 k0) (p1 ++ [chg]))).2
-  generalize hs2 : exec W (exec W (init e0 k0) (p1 ++ [chg])) p2 = s2 at *
-  have hFs : env_var s2.env = F := by rw [henv2]
-  have hg : (exec W (init e0 k0) (p1 ++ [chg])).clock + 1 + ONE_SECOND ≤ s2.clock + 1 := by
-    rw [hclk2]; omega
-  unfold zoneOfStep step
-  simp only [Option.map_some]
-  rw [← current_zone_eq]
-  congr 1
-  unfold inner_offset
-  cases hc : s2.caches t with
-  | some c =>
-    dsimp only
-    have := (offset_f W S s2.env _ s2.clock c henvS (by rw [hFs]; exact hsep')
-      (by rw [hFs]; exact (hcs t c hc).2)).2.2 hg
-    rw [this, hFs]
-  | none =>
-    dsimp only
-    have hd : CacheW W S (finFresh (env_var s2.env) ((exec W (init e0 k0) (p1 ++ [chg])).clock + 1))
-        (Cache.default W s2.clock s2.env) := default_w W S s2.env s2.clock _ (Or.inl ⟨rfl, rfl⟩) henvS
-    have := (offset_f W S s2.env _ s2.clock _ henvS (by rw [hFs]; exact hsep') hd).2.2 hg
-    rw [this, hFs]
 
 /-! ### the public entry points perform exactly one lookup -/
 
